@@ -254,6 +254,8 @@ type verifC04World struct {
 	mgr     *auth.Manager
 	am      *verifC04Auth     // what the servers hold; `reset` puts a fresh Manager behind it, `reload` reloads in place
 	ref     []verifC04RefUser // the harness' own reading of the permission table in force
+	setup   verifC04Setup     // method and exclusion lists in force
+	hook    *httptest.Server  // external authenticator that refuses everybody (authMethod http)
 	servers map[string]*verifC04Server
 	// kept alive
 	api *API
@@ -355,6 +357,7 @@ func verifC04NewWorld() *verifC04World {
 	}
 
 	w.mgr = &auth.Manager{Method: conf.AuthMethodInternal, ReadTimeout: time.Second}
+	w.hook = httptest.NewServer(http.HandlerFunc(func(rw http.ResponseWriter, _ *http.Request) { rw.WriteHeader(http.StatusUnauthorized) }))
 	am := &verifC04Auth{m: w.mgr}
 	w.am = am
 	to := conf.Duration(10 * time.Second)
@@ -421,6 +424,9 @@ func (w *verifC04World) close() {
 func verifC04ParseUsers(fs []string) []conf.AuthInternalUser {
 	var out []conf.AuthInternalUser
 	for _, f := range fs {
+		if f[0] != 'U' {
+			continue
+		}
 		p := strings.Split(f[1:], ",")
 		u := conf.AuthInternalUser{User: conf.Credential(verifutil.UnHexS(p[0])), Pass: conf.Credential(verifutil.UnHexS(p[1]))}
 		if p[2] != "-" {
@@ -490,9 +496,71 @@ type verifC04RefUser struct {
 	perms      [][2]string // action, path
 }
 
+// verifC04Setup: the non-user tokens of a reset op: M<internal|http> (default internal), X<perms> = authHTTPExclude,
+// Y<perms> = authJWTExclude (perms: action[@pathhex];…).  Core copies both lists into the manager whatever the method.
+type verifC04Setup struct {
+	method   string
+	httpEx   [][2]string
+	jwtEx    [][2]string
+	confHTTP []conf.AuthInternalUserPermission
+	confJWT  []conf.AuthInternalUserPermission
+}
+
+func verifC04ParseSetup(fs []string) verifC04Setup {
+	st := verifC04Setup{method: "internal"}
+	perms := func(t string) (ref [][2]string, cf []conf.AuthInternalUserPermission) {
+		for _, a := range strings.Split(t, ";") {
+			if a == "" {
+				continue
+			}
+			act, pth, _ := strings.Cut(a, "@")
+			if pth != "" {
+				pth = verifutil.UnHexS(pth)
+			}
+			ref = append(ref, [2]string{act, pth})
+			cf = append(cf, conf.AuthInternalUserPermission{Action: conf.AuthAction(act), Path: pth})
+		}
+		return
+	}
+	for _, f := range fs {
+		switch f[0] {
+		case 'M':
+			st.method = f[1:]
+		case 'X':
+			st.httpEx, st.confHTTP = perms(f[1:])
+		case 'Y':
+			st.jwtEx, st.confJWT = perms(f[1:])
+		}
+	}
+	return st
+}
+
+func verifC04RefPerm(perms [][2]string, action, path string) bool {
+	for _, p := range perms {
+		if p[0] != action {
+			continue
+		}
+		bound := action == "publish" || action == "read" || action == "playback"
+		switch {
+		case !bound || p[1] == "":
+			return true
+		case strings.HasPrefix(p[1], "~"):
+			if m, err := regexp.MatchString(p[1][1:], path); err == nil && m {
+				return true
+			}
+		case p[1] == path:
+			return true
+		}
+	}
+	return false
+}
+
 func verifC04RefParse(fs []string) []verifC04RefUser {
 	var out []verifC04RefUser
 	for _, f := range fs {
+		if f[0] != 'U' {
+			continue
+		}
 		p := strings.Split(f[1:], ",")
 		u := verifC04RefUser{user: verifutil.UnHexS(p[0]), pass: verifutil.UnHexS(p[1])}
 		if len(p) > 4 {
@@ -587,6 +655,20 @@ func (w *verifC04World) oracle(q *verifC04Req) (valid bool, res string) {
 		path = q.queryPath()
 		valid = conf.IsValidPathName(path) == nil
 	}
+	if w.setup.method == "http" {
+		// external authenticator refuses everybody: admitted iff the action is excluded from it.  The internal user
+		// table is irrelevant here, authJWTExclude too.
+		switch {
+		case verifC04RefPerm(w.setup.httpEx, string(s.action), path):
+			res = "ok"
+		case c.User == "" && c.Pass == "" && c.Token == "":
+			res = "ask"
+		default:
+			res = "deny"
+		}
+		return
+	}
+	// authMethod internal: the exclusion lists (left over from another method) mean nothing
 	switch {
 	case verifC04RefAdmit(w.ref, string(s.action), path, c.User, c.Pass, net.ParseIP(host)):
 		res = "ok"
@@ -706,9 +788,14 @@ func verifC04Exec(op string) string {
 	w := verifC04W
 	switch f[0] {
 	case "reset": // a freshly started authentication manager
-		w.mgr = &auth.Manager{Method: conf.AuthMethodInternal, InternalUsers: verifC04ParseUsers(f[1:]), ReadTimeout: time.Second}
+		st := verifC04ParseSetup(f[1:])
+		w.mgr = &auth.Manager{Method: conf.AuthMethodInternal, InternalUsers: verifC04ParseUsers(f[1:]), ReadTimeout: time.Second,
+			HTTPExclude: st.confHTTP, JWTExclude: st.confJWT}
+		if st.method == "http" {
+			w.mgr.Method, w.mgr.HTTPAddress = conf.AuthMethodHTTP, w.hook.URL
+		}
 		w.am.m = w.mgr
-		w.ref = verifC04RefParse(f[1:])
+		w.ref, w.setup = verifC04RefParse(f[1:]), st
 		return "ok"
 	case "coreexclude": // run-time tightening of authHTTPExclude, through a real Core (core_test.go)
 		fn, ok := verifutil.Funcs["c04.coreExclude"].(func(string) string)
@@ -917,6 +1004,7 @@ func verifC04GenRotation(r *verifutil.Rand, kind string) []string {
 		t := fmt.Sprintf("%s U%s,%s,-,%s,%s", op, verifutil.HexS("rot"), verifutil.HexS(stored(pw)), perms, verifutil.HexS(pw))
 		t += fmt.Sprintf(" U%s,%s,-,%s", verifutil.HexS("other"), verifutil.HexS("op"), "api")
 		w.ref = verifC04RefParse(strings.Fields(t)[1:])
+		w.setup = verifC04ParseSetup(strings.Fields(t)[1:])
 		return t
 	}
 	targets := []verifC04Req{
@@ -970,6 +1058,19 @@ func verifC04Gen(r *verifutil.Rand, i int, thorough bool) []string {
 		}
 		reset += fmt.Sprintf(" U%s,%s,%s,%s", verifutil.HexS(u.user), verifutil.HexS(st), ips, u.perms)
 	}
+	// authMethod x (authHTTPExclude, authJWTExclude), varied independently: lists left over from another method must
+	// mean nothing under `internal`; under `http` (refuse-all webhook) exactly the excluded actions are open
+	exs := []string{"", "api", "metrics;pprof", "api;metrics;pprof;playback", "playback@" + verifutil.HexS("cam1"), "publish;read"}
+	if x := exs[(i+1)%len(exs)]; x != "" {
+		reset += " X" + x
+	}
+	if y := exs[(i/2+3)%len(exs)]; y != "" {
+		reset += " Y" + y
+	}
+	if i%4 == 2 {
+		reset += " Mhttp"
+	}
+	w.setup = verifC04ParseSetup(strings.Fields(reset)[1:])
 	var ops []string
 	if i == 0 {
 		for _, sn := range []string{"api", "metrics", "pprof", "playback"} {
@@ -982,6 +1083,7 @@ func verifC04Gen(r *verifutil.Rand, i int, thorough bool) []string {
 	}
 	ops = append(ops, reset)
 	w.ref = verifC04RefParse(strings.Fields(reset)[1:])
+	w.setup = verifC04ParseSetup(strings.Fields(reset)[1:])
 	for _, sn := range []string{"api", "metrics", "pprof", "playback"} {
 		ops = append(ops, "routes "+sn)
 	}
